@@ -84,6 +84,42 @@ META = {
         "note": "Trusted: as C05. No general theorem yet that copyStore preserves the dump of every epoch-0 store; invalid-bytes handling of import_snapshot is not streamed yet.",
         "technique": "Lean 4 witness + reuse of the C05 theorem; differential correspondence of copies against model and plain-graph specification",
     },
+    "C08": {
+        "text": "Lean 4 theorem c08_pipeline_bindings_eq_enumeration: for EVERY graph with unique node ids and EVERY chain pattern (any number of hops, any directions, labels, types), the rows the planner's pipeline produces (scan, then one adjacency expansion per hop) are exactly the assignments of the pattern-enumeration semantics; the clauses after the pattern (filter, projection, DISTINCT, ORDER BY, SKIP/LIMIT, aggregates) are one shared definition applied in clause order. The model is tied to the code by running every generated query, rendered as GQL and as Cypher, through the real front end on the real store and comparing rows with the model (and the two languages with each other).",
+        "design_ref": "DESIGN.md 7 C08, 12",
+        "note": "Theorem is membership-level (set of bindings); multiplicities are covered by the correspondence and by the witness for undirected self-loops. Known findings: undirected self-loop matched twice, DISTINCT planned below the projection, Cypher ORDER BY property internal error. Gremlin/GraphQL renderings and variable-length paths not streamed.",
+        "technique": "Lean 4 proof (pipeline = enumeration, by induction over the hop list) + differential correspondence of query text -> rows against the executable model in two languages",
+    },
+    "C09": {
+        "text": "Differential, anchored in the C08 model: the answer the Lean query model defines has no optimizer in it; every generated query is run through translate -> bind -> Optimizer (each of the 2^3 switch subsets) -> Planner -> Executor with fresh, stale and absent statistics and factorized on/off, and each run's rows must equal the model's. The optimizer's rewrite functions themselves are not yet modelled, so no theorem speaks about optimizer/*.rs: the level is differential.",
+        "design_ref": "DESIGN.md 7 C09, 12",
+        "note": "A rewrite that is unsound only on plans outside the generated grammar (joins, aggregates above filters) is not seen.",
+        "technique": "differential correspondence of all switch/statistics combinations against the Lean query model (theorem reused: C08 pipeline = enumeration)",
+    },
+    "C10": {
+        "text": "Differential, anchored in the C08 model: the model's answer has no physical configuration in it; every generated query runs with factorized on/off, any subset of indexed keys, cold and warm plan cache, after toggling the index set, and again after the data changed in the same session; all answers must equal the model's on the current graph. Texts differing only inside a literal must not share a cached plan.",
+        "design_ref": "DESIGN.md 7 C10, 12",
+        "note": "Found and repaired: index path dropped remaining conjuncts, plan-cache key collapsed whitespace inside literals, min/max pruning of <> on mixed-type columns, factorized chain with an empty last hop, stacked filters resurrecting rows.",
+        "technique": "differential correspondence of physical configurations and data-change histories against the Lean query model (theorem reused: C08 pipeline = enumeration)",
+    },
+    "C12": {
+        "text": "Lean 4 theorems about a model of the GQL lexer: for EVERY character list, every token's start and end are character boundaries within the input (so no slice can panic), every call of next_token on non-exhausted input consumes at least one character, and tokenize terminates with exactly one final EOF within length+1 tokens. The model is compared token by token with the real lexer on generated and mutated texts (incl. non-ASCII outside literals). The other four lexers and all parsers/translators/planners are covered by a crash/hang SEARCH only (child process, catch_unwind, watchdog, address-space limit).",
+        "design_ref": "DESIGN.md 7 C12, 12",
+        "note": "Partial: proof for one lexer; search for the rest. Known findings: deep nesting overflows the stack in all five front ends, plus SPARQL/Gremlin findings listed in known_findings.json.",
+        "technique": "Lean 4 proof (lexer cursor invariant, progress, termination) + differential token correspondence; crash/hang search for unmodelled stages",
+    },
+    "C18": {
+        "text": "Lean 4 theorems about a model of the HNSW search control logic (greedy descent, beam search with candidate/result heaps and visited set, final sort/truncate), for EVERY layered graph, distance key function, k, ef and fuel: results are at most k, distinct, members of the index, paired with their own distance key, sorted; an empty index returns nothing; with enough fuel every search returns k results when k reachable vectors exist; brute force returns the true k smallest; batch = singles. The model runs on the implementation's own dumped graph (hook) and its output is compared with search_with_ef; removed ids, re-inserts, all four metrics, ties and NaN distances are streamed as verdicts.",
+        "design_ref": "DESIGN.md 7 C18, 12",
+        "note": "Floating point, SIMD kernels, quantisation and graph construction are not modelled (differential only). Known finding: NaN distance breaks brute-force order.",
+        "technique": "Lean 4 proof (search invariants by induction over fuel) + differential correspondence on the implementation's dumped graph",
+    },
+    "C20": {
+        "text": "Lean 4 theorems over ALL interleavings (any number of threads, any programs, any schedule): (memory) the buffer manager's allocated total never exceeds the hard limit, always equals held plus in-flight bytes and returns to the held bytes at quiescence; (triple store) every interleaving of inserts and removes is linearizable and leaves the three indexes consistent with the primary set; (deadlock) the lock-order graph regenerated from the source on every run has a rank certificate checked by `decide`, and a ranked lock graph admits no deadlocked set of threads; (epochs) commit is one critical section, so C03's uniqueness theorem is the concurrent statement. The step models are tied to the code by executing generated programs under forced schedules (yield-point hook) and comparing results, final state and invariants with the model.",
+        "design_ref": "DESIGN.md 7 C20, 12",
+        "note": "Partial: LpgStore multi-step operations are covered by the lock-order theorem and by repairs only, not by an interleaving model; WAL/arena/HNSW/cache concurrency not modelled. Witness theorems show the pre-repair code failing each clause.",
+        "technique": "Lean 4 proof (invariants over all schedules; rank-certificate acyclicity of the extracted lock graph) + forced-schedule differential correspondence + source-to-model lock-graph translator",
+    },
     "C19": {
         "text": "Translation validation with machine-checked result checkers: Lean 4 theorems prove, for EVERY finite directed multigraph, source and candidate result, that a result accepted by the checker is correct - reach orders (hence BFS/DFS visit sets), shortest-path distance maps for any integer weights (accepted maps are unique, so Dijkstra = Bellman-Ford), negative-cycle certificates, topological orders (sound and complete; cyclic graphs admit none), weak and strong component partitions (same class iff connected / mutually reachable), spanning forests (connectivity and edge count). On every generated graph the implementation's result must equal a result that the proved checker accepts. The algorithms' code itself is not modelled (per-sample decision, not a proof about the algorithm on all graphs).",
         "design_ref": "DESIGN.md 7 C19",
